@@ -1,4 +1,5 @@
 mod compat;
+mod conc;
 mod core;
 mod doc;
 mod drive;
@@ -16,7 +17,7 @@ fn arg(args: &[String], name: &str) -> Option<String> {
 fn main() {
     let args: Vec<String> = std::env::args().collect();
     // panics of the code under test are data; keep their messages out of stderr noise
-    std::panic::set_hook(Box::new(|_| {}));
+    if std::env::var("VH_PANIC_VERBOSE").is_err() { std::panic::set_hook(Box::new(|_| {})); }
     match args.get(1).map(|s| s.as_str()) {
         Some("extract") => {
             let v = extract::extract();
@@ -84,6 +85,12 @@ fn main() {
         }
         Some("compat") => {
             println!("{}", compat::run(&arg(&args, "--types").expect("--types"), &arg(&args, "--in").expect("--in"), &arg(&args, "--out").expect("--out")));
+        }
+        Some("conc-record") => {
+            println!("{}", conc::record(&arg(&args, "--out").expect("--out")));
+        }
+        Some("conc-sched") => {
+            println!("{}", conc::sched(&arg(&args, "--in").expect("--in"), &arg(&args, "--out").expect("--out")));
         }
         Some("histories") => {
             let input = arg(&args, "--in").expect("--in");
